@@ -97,4 +97,16 @@ example : (run 2 { lastC := 0, lastS := 0 } (merge (Ev.data true 505 :: Ev.data 
 example : (run 2 { lastC := 0, lastS := 0 }
     (merge ([305, 1305, 2305, 3305, 4305].map (Ev.data true) ++ ticks 10))).closedAt = some 7005 := by decide
 
+/-- `timeouts.udp: 0` disables the timeout of UDP associations whatever `timeouts.idle` says; ignoring a 0 in the
+    setter (seeded change C13c) hands them the TCP period instead -/
+theorem udp_zero_is_applied (idle : Nat) : udpSessionTimeout { idle := idle, udp := 0 } = 0 ∧
+    udpSessionTimeoutIgnoringZero { idle := 5, udp := 0 } = 5 := ⟨rfl, by decide⟩
+
+/-- data that does not refresh `last_read` (seeded change C13d, splice path): a tunnel with traffic every 500 ms is
+    closed at the first tick after the period, although a byte was relayed 500 ms before -/
+theorem stale_last_read_closes_a_busy_tunnel :
+    ([Ev.data true 500, .tick 1000, .data true 1500, .tick 2000, .data true 2500, .tick 3000].foldl (stepStaleOnSplice 2) { lastC := 0, lastS := 0 }).closedAt = some 3000 ∧
+    (run 2 { lastC := 0, lastS := 0 } [Ev.data true 500, .tick 1000, .data true 1500, .tick 2000, .data true 2500, .tick 3000]).closedAt = none := by
+  decide
+
 end Redproxy.Props.C13
